@@ -16,8 +16,57 @@ def sizes(tier):
     return (6, 6) if tier == "quick" else (14, 12)
 
 
+# Set by the shard while it produces the code-constant cases (rtmon/codeconst.py): {"size": s, "form": f, "used": 0}.  The first size a
+# driver's generator draws for a case is then s (a number taken from the library source, +-1) instead of a random one.
+FORCED = None
+
+
+def forced_size():
+    """the forced size (and its form) if one is pending for the case being generated, else None; marks it used"""
+    f = FORCED
+    if f is None or f["used"]:
+        return None
+    f["used"] += 1
+    return f["size"], f["form"]
+
+
+def const_lens(rng, s, form):
+    """row-length vector in which the number `s` occurs as: the number of rows / of cells / the length of one row / the length of a run
+    of empty rows / the number of non-empty rows"""
+    short = lambda: rng.choice([0, 1, 1, 2])
+    if form == "rows":
+        lens = [short() for _ in range(s)]
+        if rng.random() < 0.5:
+            lens[-1] = max(1, lens[-1])
+        if sum(lens) == 0:
+            lens[0] = 1
+    elif form == "cells":
+        k = rng.randint(2, 5)
+        cuts = sorted(rng.randint(0, s) for _ in range(k - 1))
+        lens = [b - a for a, b in zip([0] + cuts, cuts + [s])]
+        lens.insert(rng.randrange(len(lens) + 1), 0)
+    elif form == "rowlen":
+        lens = [short() for _ in range(rng.randint(1, 4))]
+        lens.insert(rng.randrange(len(lens) + 1), s)
+    elif form == "emptyrun":
+        lens = [rng.randint(1, 3) for _ in range(rng.randint(0, 2))] + [0] * s + [rng.randint(1, 3) for _ in range(rng.randint(1, 2))]
+    else:       # "nonempty": exactly s non-empty rows with a few empty ones in between
+        lens = []
+        for _ in range(s):
+            lens.append(rng.randint(1, 2))
+            if rng.random() < 0.15:
+                lens.append(0)
+    return lens
+
+
 def length_vector(rng, tier="quick", stratum=None, maxrows=None, maxlen=None, minrows=0):
     """row-length vector of a named stratum (every stratum is forced to occur)"""
+    if FORCED is not None and not FORCED["used"] and (maxrows is None or FORCED["size"] <= 1500):
+        s_, form_ = forced_size()
+        lens = const_lens(rng, s_, form_)
+        while len(lens) < minrows:
+            lens.append(1)
+        return lens, "codeconst"
     mr, ml = sizes(tier)
     maxrows = maxrows or mr
     maxlen = maxlen or ml
